@@ -114,6 +114,12 @@ def assert_frame_cases() -> None:
     # frame_obj is filled in only when the iframe is not embedded inside it
     assert outlived_iframe.frame_obj == 0
 
+    # Both of these frames refer back to this frame, which refers to them
+    # through its locals. Since this runs during someone's first call into
+    # the library, such a cycle would keep our callers' frames, and everything
+    # they refer to, alive until the next garbage collection.
+    del this_frame, outlived_frame
+
 
 assert_frame_cases()
 
